@@ -31,7 +31,12 @@ H1 = gen.schema(
 H2 = gen.schema(
     types=[gen.stype('ta', [gen.key('ka', handler='h-a')], datatype=gen.WRAP)],
     items=[gen.multisection('ta', '*', attr='xs'), gen.key('+', attr='any', handler='h.w')])
-SCH = {'H1': H1, 'H2': H2}
+# a schema whose own key type is NOT basic-key: handler names are still matched after basic-key normalisation
+H3 = gen.schema(
+    keytype='identifier', handler='hs',
+    types=[gen.stype('ta', [gen.key('h1', handler='hk')], keytype='ipaddr-or-hostname')],
+    items=[gen.key('Ka', handler='ha'), gen.key('kb', handler='Hb'), gen.multisection('ta', '*', attr='xs', handler='hm')])
+SCH = {'H1': H1, 'H2': H2, 'H3': H3}
 XMLS = {k: gen.render(v) for k, v in SCH.items()}
 VIEWS = {k: gen.View(v) for k, v in SCH.items()}
 
@@ -48,7 +53,9 @@ TEXTS = {
         [[['w', 2, 'k'], ' v'], '<ta/>'],
     ],
 }
-NAMES = {'H1': ['ha', 'hb', 'hc', 'hd', 'he', 'hk', 'hm', 'hs'], 'H2': ['h-a', 'h.w']}
+TEXTS['H3'] = [['Ka 1', 'kb 2', '<ta/>', '<ta x>', 'h1 v', '</ta>'], []]
+NAMES = {'H1': ['ha', 'hb', 'hc', 'hd', 'he', 'hk', 'hm', 'hs'], 'H2': ['h-a', 'h.w'],
+         'H3': ['ha', 'hb', 'hk', 'hm', 'hs']}
 
 
 def bk_pred(c, i):
@@ -151,7 +158,7 @@ class C16(P.TextMixin, Harness):
                  'ZConfig.matcher.SchemaMatcher.finish', 'ZConfig.schema.BaseParser.get_handler',
                  'ZConfig.matcher.', 'ZConfig.loader.')
     assumptions = (
-        'schemas H1, H2 (handlers on the schema, keys, multikeys, sections, multisections at two '
+        'schemas H1, H2, H3 (H3: schema key type identifier, section key type ipaddr-or-hostname; handlers on the schema, keys, multikeys, sections, multisections at two '
         'depths; hyphen and dot in handler names) and the enumerated texts',
         'handler-map names are legal basic-keys (precondition on the symbolic names); names that are '
         'not legal basic-keys raise ValueError from the normaliser and are outside the statement',
